@@ -51,7 +51,7 @@ ASSUMPTIONS = [
 N_SLOTS = 3
 
 
-EXPECTED_PROBES = ['receiver_constructed_with_its_own_distance_file', 'subgraph_poked_between_saves', 'labels_propagated_between_saves', 'non_float64_training_data', 'load_checked', 'load_of_save_made_after_a_failed_save', 'loaded_into_differently_constructed_model', 'matrix_pairs_run', 'original_refitted_after_save', 'original_used_between_saves', 'path_overwritten', 'prediction_raises_consistently', 'refit_raised', 'restart_checked_', 'save_raised_and_original_compared', 'save_returned_normally_although_fault_fired', 'scheduled_fault_did_not_fire', 'second_generation_load', 'successful_save_after_failed_save']
+EXPECTED_PROBES = ['distance_fn_replaced_through_setter', 'receiver_constructed_with_its_own_distance_file', 'subgraph_poked_between_saves', 'labels_propagated_between_saves', 'non_float64_training_data', 'load_checked', 'load_of_save_made_after_a_failed_save', 'loaded_into_differently_constructed_model', 'matrix_pairs_run', 'original_refitted_after_save', 'original_used_between_saves', 'path_overwritten', 'prediction_raises_consistently', 'refit_raised', 'restart_checked_', 'save_raised_and_original_compared', 'save_returned_normally_although_fault_fired', 'scheduled_fault_did_not_fire', 'second_generation_load', 'successful_save_after_failed_save']
 
 SLOW_ARMS = ("restart", "matrix")
 
@@ -131,6 +131,9 @@ def gen_case(rng, arm, tier, k=0):
                 # public calls on the model's subgraph between saves: whatever state results,
                 # a save/load must reproduce it
                 ops.append(["poke", rng.choice(("create_arcs", "destroy_arcs", "eliminate_maxima_height", "create_arcs")), rng.randint(1, 4)])
+            elif rng.random() < 0.15:
+                # the metric function is replaced through the public setter (name and function disagree)
+                ops.append(["set_fn", rng.randrange(47)])
             elif base["kind"] in ("unsup", "unsup_prop") and rng.random() < 0.4:
                 ops.append(["propagate"])
             else:
@@ -462,6 +465,13 @@ def run_case(case):
                 except Exception:  # noqa: BLE001 - consistently failing predictions are compared at the loads
                     pass
                 norm.append(("use",))
+            elif kop == "set_fn":
+                if case["pre"] or case.get("dtype", "float64") != "float64":
+                    continue
+                out.steps += 1
+                m.distance_fn = B.distance.DISTANCES[ALL_METRICS[op[1] % 47]]
+                bump(out.probes, "distance_fn_replaced_through_setter")
+                norm.append(("set_fn", op[1] % 47))
             elif kop == "poke":
                 sg = m.subgraph
                 if kind not in ("knn", "unsup", "unsup_prop") or sg is None:
